@@ -244,12 +244,14 @@ def run_revolve(col):
                 and cn.shape == (n - 1, 8) and pn.shape[0] == npts_expected and int(cn.max()) == npts_expected - 1, "cells %s points %s bad %s" % (cn.shape, pn.shape, bad))
     # the section angles given one by one (non-uniform; their number differs from the default / given n): one layer of cells per sector,
     # every point layer used, the last layer at the last angle (closed ring when that is 360)
-    for angles, n in (([0, 30, 90, 120], 11), ([0, 90, 180, 270, 360], 3), ([0, 45, 90], 2), (np.array([0, 60, 90, 150, 180]), 11)):
+    # ... the ring is closed (last layer = first layer) exactly when the sections span a full revolution: a half ring from 180 to 360 degrees is open
+    for angles, n in (([0, 30, 90, 120], 11), ([0, 90, 180, 270, 360], 3), ([0, 45, 90], 2), (np.array([0, 60, 90, 150, 180]), 11),
+                      ([180, 225, 270, 315, 360], 11), ([90, 180, 270, 360], 4)):
         def chk_angles(angles=angles, n=n):
             pn, cn, tn = it.call(revolve, [X, cells, "quad"], dict(n=n, phi=angles, axis=0))
             pn = npmodel.to_obj(pn)
             cn = npmodel.to_int_array(np.asarray(cn))
-            closed = int(angles[-1]) == 360
+            closed = int(angles[-1]) - int(angles[0]) == 360
             nlay = len(angles) - 1 if closed else len(angles)
             if cn.size and int(cn.max()) >= pn.shape[0]:
                 return False, "mesh/_tools.py revolve: cells refer to point %d but only %d points are returned" % (int(cn.max()), pn.shape[0])
